@@ -78,9 +78,7 @@ C09_SIZE_EXCEPTIONS["widget.frame.Frame.keypress:self._body.keypress"] = {
 }
 
 # C16: list mutators that need no focus override in MonitoredFocusList, one reason each.
-C16_FOCUS_EXEMPT = {
-    "__iadd__": "appends behind every existing item: the focused item's index cannot change, and on an empty list the focus setter's invariant _focus == 0 makes the first appended item the focus",
-}
+C16_FOCUS_EXEMPT = {}  # __iadd__ used to be exempt; it has to go through extend() so that the validate callback sees the new items
 # C16.2 early returns without a list call, and overrides that compute the focus after the call.
 C16_ORDER_AFTER = {
     "sort:return None": "sort() of an empty list has nothing to do and returns before touching the list (no modified callback, no change)",
